@@ -429,6 +429,94 @@ fn one_op(out: &mut Out, st: &Stores, seen: &mut Seen, o: &Operation, kind: &str
     }
 }
 
+// ---------- crafted / legacy protobuf messages (exercise every branch of `view_from_proto`) ----------
+#[allow(deprecated)]
+fn gen_ptarget(r: &mut Rng) -> Option<pb::RefTarget> {
+    use pb::ref_target::Value;
+    let bytes = |r: &mut Rng| cid(r).to_bytes();
+    let term = |r: &mut Rng| pb::ref_conflict::Term { value: if r.chance(1, 4) { None } else { Some(cid(r).to_bytes()) } };
+    let value = match r.below(10) {
+        0 | 1 => return None,
+        2 | 3 => Value::CommitId(bytes(r)),
+        4 | 5 => {
+            let nr = r.below(3);
+            let na = match r.below(6) { 0 => 0, 1 => nr + 2, 2 => nr, _ => nr + 1 };
+            Value::ConflictLegacy(pb::RefConflictLegacy { removes: (0..nr).map(|_| bytes(r)).collect(), adds: (0..na).map(|_| bytes(r)).collect() })
+        }
+        _ => {
+            let nr = r.below(3);
+            let na = if r.chance(1, 12) { *r.pick(&[0usize, nr, nr + 2]) } else { nr + 1 };
+            Value::Conflict(pb::RefConflict { removes: (0..nr).map(|_| term(r)).collect(), adds: (0..na).map(|_| term(r)).collect() })
+        }
+    };
+    Some(pb::RefTarget { value: Some(value) })
+}
+#[allow(deprecated)]
+fn gen_pview(r: &mut Rng) -> pb::View {
+    let name = |r: &mut Rng| (*r.pick(&NAMES[..6])).to_string();
+    let remote = |r: &mut Rng| (*r.pick(REMOTES)).to_string();
+    let remote_ref = |r: &mut Rng| pb::RemoteRef {
+        name: name(r),
+        target_terms: (0..if r.chance(1, 12) { 2 * r.below(2) } else { 1 + 2 * r.below(2) })
+            .map(|_| pb::RefTargetTerm { value: if r.chance(1, 4) { None } else { Some(cid(r).to_bytes()) } }).collect(),
+        state: if r.chance(1, 15) { *r.pick(&[2, -1, 7]) } else { r.below(2) as i32 },
+    };
+    pb::View {
+        head_ids: (0..r.below(4)).map(|_| cid(r).to_bytes()).collect(),
+        wc_commit_id: if r.chance(1, 3) { cid(r).to_bytes() } else { vec![] },
+        wc_commit_ids: (0..r.below(3)).map(|_| ((*r.pick(WORKSPACES)).to_string(), cid(r).to_bytes())).collect(),
+        bookmarks: (0..r.below(4)).map(|_| pb::Bookmark {
+            name: name(r),
+            local_target: gen_ptarget(r),
+            remote_bookmarks: (0..r.below(3)).map(|_| pb::RemoteBookmark {
+                remote_name: remote(r), target: gen_ptarget(r),
+                state: match r.below(8) { 0 => None, 1 => Some(*r.pick(&[2, -1])), _ => Some(r.below(2) as i32) },
+            }).collect(),
+        }).collect(),
+        local_tags: (0..r.below(3)).map(|_| pb::Tag { name: name(r), target: gen_ptarget(r) }).collect(),
+        remote_views: (0..r.below(3)).map(|_| pb::RemoteView {
+            name: remote(r),
+            bookmarks: (0..r.below(3)).map(|_| remote_ref(r)).collect(),
+            tags: (0..r.below(2)).map(|_| remote_ref(r)).collect(),
+        }).collect(),
+        git_refs: (0..r.below(4)).map(|_| pb::GitRef {
+            name: (*r.pick(&["refs/heads/a", "refs/tags/t", "refs/tags/u", "refs/tags/", "refs/tags", "HEAD"])).to_string(),
+            commit_id: if r.chance(1, 2) { cid(r).to_bytes() } else { vec![] },
+            target: if r.chance(1, 3) { None } else { gen_ptarget(r) },
+        }).collect(),
+        git_head_legacy: if r.chance(1, 3) { cid(r).to_bytes() } else { vec![] },
+        git_head: if r.chance(1, 2) { gen_ptarget(r) } else { None },
+        has_git_refs_migrated_to_remote_tags: r.chance(3, 5),
+        git_heads: (0..if r.chance(1, 2) { 0 } else { r.below(3) }).map(|_| pb::GitHead { name: (*r.pick(WORKSPACES)).to_string(), target: gen_ptarget(r) }).collect(),
+    }
+}
+#[allow(deprecated)]
+fn one_pview(out: &mut Out, st: &Stores, n: u64, p: &pb::View) {
+    let mut id = vec![0xeeu8; 64];
+    id[..8].copy_from_slice(&n.to_be_bytes());
+    let id = ViewId::new(id);
+    std::fs::write(st.dir.path().join("views").join(id.hex()), p.encode_to_vec()).unwrap();
+    let res = guard(|| open(st.dir.path()).read_view(&id).block_on()
+        .map_err(|e| format!("{e}: {}", std::error::Error::source(&e).map(|s| s.to_string()).unwrap_or_default())));
+    let ans = match &res { Ok(Ok(v)) => format!("ok {}", show_view(v)), Ok(Err(e)) => classify_err(e), Err(_) => "panic".to_string() };
+    out.case(&format!("pview {}", show_pview(p)), &ans);
+    out.tally("pview.result", if ans.starts_with("ok") { "ok" } else { &ans });
+    out.tally("pview.migrated", if p.has_git_refs_migrated_to_remote_tags { "yes" } else { "no" });
+    out.tally("pview.remote_views", if p.remote_views.is_empty() { "legacy-only" } else { "new-style" });
+    if ans.starts_with("ok") { out.nontrivial(("p", show_pview(p))); }
+    // oracle: whatever an old file contains, reading it yields a view that round-trips from then on
+    if let Ok(Ok(v)) = &res {
+        if view_wf(v) {
+            let again = guard(|| { let s = open(st.dir.path()); let id2 = s.write_view(v).block_on().unwrap(); s.read_view(&id2).block_on().unwrap() });
+            match again {
+                Ok(v2) if v2 == *v => out.oracle_ok(),
+                Ok(v2) => out.oracle_fail("opstore:migrated-view-not-stable", format!("{}\n then {}", show_view(v), show_view(&v2))),
+                Err(e) => out.oracle_fail("opstore:migrated-view-panic", format!("{}: {e}", show_view(v))),
+            }
+        }
+    }
+}
+
 pub fn run(cfg: &Cfg, out: &mut Out) {
     let st = Stores { dir: tempfile::tempdir().unwrap(), dir2: tempfile::tempdir().unwrap() };
     SimpleOpStore::init(st.dir.path(), root_data()).unwrap();
@@ -468,6 +556,8 @@ pub fn run(cfg: &Cfg, out: &mut Out) {
         one_op(out, &st, &mut seen_ops, &o.0, o.1);
         if op_wf(&o.0) { prev = o.0; }
     }
+    let mut r = cfg.rng(18);
+    for n in 0..cfg.n(1500, 40_000) { let p = gen_pview(&mut r); one_pview(out, &st, n, &p); }
     std::panic::set_hook(prev_hook);
     out.note(format!("{} distinct views, {} distinct operations; every value written to two stores and read back from a fresh store instance", seen.by_value.len(), seen_ops.by_value.len()));
 }
